@@ -214,6 +214,52 @@ def w_random(ctx, wid, seed, examples):
                       lambda c: dict(op=OPS[c[0]], args=[a.hex() for a in c[1]], z=1, executed=True, sv=c[2], minimaldata=c[3]))
 
 
+def w_phases(ctx, wid, seed):
+    """the 15 opcodes in a LATER script of a session (scriptPubKey after a scriptSig, P2SH redeem script) and through `exec`: without the option they fail as
+    disabled opcodes there too (executed or not), with it they are computed"""
+    h = Harness('plain')
+    for op in sorted(OPS):
+        a, b = R.num_enc(6), R.num_enc(3)
+        args = (a,) if OPS[op] in ('INVERT', '2MUL', '2DIV') else ((b'abcdef', R.num_enc(1), R.num_enc(2)) if OPS[op] == 'SUBSTR' else ((b'abcdef', R.num_enc(2)) if OPS[op] in ('LEFT', 'RIGHT') else (a, b)))
+        for executed in (True, False):
+            body = build(op, args, False, executed) + (b'\x75\x51' if executed else b'')
+            redeem = body
+            for phase, kw in (('scriptPubKey', dict(script=b'\x51\x75', succ=body)),
+                              ('redeem-script', dict(script=b'\xa9\x14' + R.ripemd(R.sha256(redeem)) + b'\x87', stack=[redeem], flags=F['P2SH']))):
+                for z in (0, 1):
+                    case = dict(op=OPS[op], phase=phase, executed=executed, z=z)
+                    ctx.case(repr(case), True, case, 'later-script:' + phase)
+                    req = dict(flags=0, sv=0, z=z, mode='step', trace=0)
+                    req.update(kw)
+                    g = h.req(kvline('run', **req))
+                    if 'crash' in g or 'exit' in g or 'final' not in g:
+                        ctx.violations.append(dict(campaign='phases', why='session died / refused: %r' % g, case=case, refails=3))
+                        return
+                    if z == 0 and (g['ok'] or g['err'] != R.ERR['DISABLED_OPCODE']):
+                        ctx.violations.append(dict(campaign='phases', why='without --allow-disabled-opcodes OP_%s in the %s (%s branch) must fail as a disabled opcode, session says %r' % (
+                            OPS[op], phase, 'executed' if executed else 'unexecuted', g['err'] or 'ok'), case=case, observed=[g['ok'], g['err']], expected=R.ERR['DISABLED_OPCODE'], refails=3))
+                        return
+                    if z == 1 and not g['ok']:
+                        ctx.violations.append(dict(campaign='phases', why='with the option OP_%s in the %s fails: %r' % (OPS[op], phase, g['err']), case=case, observed=g['err'], refails=3))
+                        return
+        # exec
+        for z in (0, 1):
+            case = dict(op=OPS[op], phase='exec', z=z)
+            ctx.case(repr(case), True, case, 'later-script:exec')
+            toks = [x.hex() if len(x) > 1 or not (1 <= x[0] <= 16) else str(x[0]) for x in args] + ['OP_' + OPS[op]]
+            g = h.req(kvline('session', script=b'\x61\x51', stack=[], flags=0, sv=0, z=z, cmds='s,e:' + '+'.join(t.encode().hex() for t in toks)))
+            if 'log' not in g:
+                ctx.violations.append(dict(campaign='phases', why='session died / refused: %r' % g, case=case, refails=3))
+                return
+            ex = g['log'][1]
+            if z == 0 and (ex['acc'] or ex['err'] != R.ERR['DISABLED_OPCODE']):
+                ctx.violations.append(dict(campaign='phases', why='without --allow-disabled-opcodes `exec ... OP_%s` must fail as a disabled opcode, got %r' % (OPS[op], ex['err'] or 'accepted'), case=case, observed=[ex['acc'], ex['err']], refails=3))
+                return
+            if z == 1 and not ex['acc']:
+                ctx.violations.append(dict(campaign='phases', why='with the option `exec ... OP_%s` fails: %r' % (OPS[op], ex['err']), case=case, observed=ex['err'], refails=3))
+                return
+
+
 def run_ops(h, script, minimal=False):
     g = h.req(kvline('run', script=script, flags=F['MINIMALDATA'] if minimal else 0, sv=0, z=1, mode='step', trace=0))
     if 'crash' in g or 'exit' in g:
@@ -282,6 +328,7 @@ def run(tier, t0):
         for p in range(parts):
             tasks.append((w_table, dict(op=op, part=p, parts=parts, tier=tier)))
     tasks.append((w_relations, dict()))
+    tasks.append((w_phases, dict()))
     tasks += [(w_random, dict(examples=8000 if tier == 'quick' else 100000)) for _ in range(8 if tier == 'quick' else core.WORKERS)]
     m = core.parallel(PID, tasks)
     m.exhaustive = (tier == 'thorough')
